@@ -492,8 +492,9 @@ def _quotient_shortcut(ctx, model):
     NUM, DEN = ("param", "numerator"), ("param", "denominator")
     for ps in summarize(fn, plain=True):
         if ps.term == "return" and ps.retval == NUM:
-            ok = any(pol and v == ("unop", "Not", ("binop", "Sub", DEN,
-                                                   ("const", 1)))
+            ok = any((pol and v == ("unop", "Not", ("binop", "Sub", DEN,
+                                                    ("const", 1))))
+                     or (not pol and v == ("binop", "Sub", DEN, ("const", 1)))
                      for _, pol, v in ps.conds)
             ctx.ob("I/quotient/denominator==1->numerator", ok, m.loc(fn),
                    "n / 1 = n" if ok else
